@@ -71,6 +71,16 @@ func headHeader(n *node) *coin.BlockHeader {
 }
 
 func ledgerExec(op string) string {
+	out := ledgerExec1(op)
+	f := Fields(op)
+	if c8On && (f[0] == "c8begin" || (len(f) > 1 && f[1] == "F")) {
+		// number of commit-boundary snapshots of F taken so far
+		out += " S" + strconv.Itoa(len(c8Snaps))
+	}
+	return out
+}
+
+func ledgerExec1(op string) string {
 	f := Fields(op)
 	switch f[0] {
 	case "reset":
@@ -80,12 +90,31 @@ func ledgerExec(op string) string {
 			burn: u64(m, "burn", 10), maxtxn: u64(m, "maxtxn", 32768), maxblk: u64(m, "maxblk", 32768), prec: u64(m, "prec", 3),
 			ubf: u64(m, "ubf", 10), umax: u64(m, "umax", 32768), uprec: u64(m, "uprec", 3),
 		}
+		c8On = false
 		w, err := newWorld(rp)
 		if err != nil {
 			return "R" + errCode(err)
 		}
 		g := w.genesis
 		return annBlock(&g, nil) + " Rok " + digest(w.nodes["P"]) + " " + digest(w.nodes["F"])
+	case "c8begin":
+		m := parseKV(f[1:])
+		rp := resetParams{
+			arbF: u64(m, "arbF", 0), gc: u64(m, "gc", 100e12), gt: u64(m, "gt", 1000),
+			burn: u64(m, "burn", 10), maxtxn: u64(m, "maxtxn", 32768), maxblk: u64(m, "maxblk", 32768), prec: u64(m, "prec", 3),
+			ubf: u64(m, "ubf", 10), umax: u64(m, "umax", 32768), uprec: u64(m, "uprec", 3),
+		}
+		out, err := c8Begin(rp)
+		if err != nil {
+			return "R" + errCode(err)
+		}
+		return out
+	case "c8same":
+		// final comparison: the restarted-and-caught-up node R against the never-crashed node F
+		return "Rok " + digest(getNode("R")) + " " + digest(getNode("F"))
+	case "c8fork":
+		k, _ := strconv.Atoi(f[1])
+		return c8Fork(k, f[2])
 	case "exec":
 		n := getNode(f[1])
 		b, err := decodeBlock(f[2])
